@@ -1,7 +1,7 @@
 """C06 — checkpoint/restore at any time boundary is invisible (spec/ckpt/Checkpoint.tla over TickImpl.tla)."""
 import os
 from vlib import core, tickcheck, tracecheck
-from vlib import netckpt, vmckpt
+from vlib import netckpt, vmckpt, memckpt
 
 LEVEL = "model_checking"
 TECHNIQUE = "TLA+ model of save/rebuild/load over the tick model checked by TLC (cut at every boundary of every behaviour, negative controls); on the real code every distinct event time of every run is a cut point: resumed run compared with the uninterrupted one and monitored by TLC"
@@ -61,4 +61,5 @@ def run(ck):
     netckpt.run_c06(ck)
     # translation stacks (AT, TLBs, MMU cache, GMMU, MMU, page table, storage)
     vmckpt.run_c06(ck)
+    memckpt.run_c06(ck)
     ck.cov["exhaustive"] = True
